@@ -68,7 +68,7 @@ def gen_plan(rng, profile="accounting", tier="quick", knobs=None):
             fspec["cost_long"] = [[rng.choice([0.0, 0.001, 0.003]) for _ in tickers] for _ in range(ndates)]
         if rng.random() < 0.6:
             fspec["cost_short"] = [[rng.choice([0.0, 0.002, 0.004]) for _ in tickers] for _ in range(ndates)]
-    munit = feedmod.min_unit(prices)
+    munit = feedmod.min_unit(prices) * min([s["mult"] for _p, s in trees.securities(tree)] + [1.0])
     cfg = {
         "integer": rng.random() < 0.5,
         "comm": commod.gen(rng, munit),
@@ -127,6 +127,7 @@ def gen_plan(rng, profile="accounting", tier="quick", knobs=None):
                 o["mode"] = rng.choice(["frac", "units", "units", "close", "close_ulp", "tiny", "zero"])
                 o["units"] = rng.choice([1, 2, 3, 7, 50]) * rng.choice([1, -1])
                 o["eps"] = rng.choice([0.0, 1e-9, -1e-9, 0.01, -0.01, 0.5, -0.5])
+                o["ill"] = rng.random() < 0.3
         elif kind == "spread":
             o["frac"] = round(rng.choice([1, 1, -1]) * rng.choice([0.1, 0.25, 0.5, 1.0]), 4)
             o["upd"] = upd
@@ -190,9 +191,93 @@ class TreeSim(taps.Sim):
         self.may_be_bankrupt = False
         self.alloc_events = []
         self.last_obs_val = {}
+        if "C05" in judge:
+            self.on_sec_allocate = self._c05
         self._upd_val = None
         self._was_bankrupt = False
         self.bankrupt_at = None
+
+    # ------------------------------------------------------------------ C05: budget rule at every SecurityBase.allocate
+    def _c05(self, sec, amount, update, orig):
+        m = self.model
+        feed = self.feed
+        name = sec.name
+        price = feed.price(m.t, name)
+        mult = sec.multiplier
+        spread = feed.get("bidoffer", m.t, name) if feed.has("bidoffer") else 0.0
+        parent = sec.parent
+        pos0 = sec.position
+        cap0 = parent.capital
+        booked0 = self.comm_booked
+        integer = bool(sec.integer_positions)
+        comm = m.comm
+        self.n_alloc = getattr(self, "n_alloc", 0) + 1
+
+        def cost(q):
+            if q == 0:
+                return 0.0
+            return q * price * mult + 0.5 * abs(q) * spread * mult + comm(q, price * mult)
+
+        flags = {"integer": integer, "side": "buy" if amount > 0 else "sell", "from": "flat" if abs(pos0) < TOL else ("long" if pos0 > 0 else "short")}
+        flags["amount_ge_5e7"] = bool(abs(amount) >= 5e7)
+        bad_price = (price != price) or abs(price) < TOL
+        try:
+            r = orig(sec, amount, update)
+        except Exception as e:  # noqa
+            msg = str(e)
+            if any(msg.startswith(st) for st in SIZING_STEMS):
+                flags["stem"] = msg[:24]
+                self.violation("c05_sizing_exception", "allocate(%r) to %s raised: %s (price=%r mult=%r pos=%r comm=%s)" % (amount, name, msg[:60], price, mult, pos0, self.cfg["comm"]), flags)
+            elif bad_price and abs(amount) >= TOL:
+                self.fire("refused_bad_price")
+                if sec.position != pos0 or parent.capital != cap0:
+                    self.violation("c05_refuse_state", "refused allocate at price %r changed state" % price, flags)
+            raise
+        pos1 = sec.position
+        cap1 = parent.capital
+        q = pos1 - pos0
+        if abs(amount) < TOL:
+            if q != 0 or cap1 != cap0:
+                self.violation("c05_zero_amount", "allocate(0) changed position by %r / cash by %r" % (q, cap1 - cap0), flags)
+            return r
+        if bad_price:
+            self.violation("c05_refuse", "allocate(%r) at price %r was not refused" % (amount, price), flags)
+            return r
+        if price < 0:
+            return r
+        self.fire("alloc_judged")
+        unit = price * mult
+        tol = 1e-8 + 1e-9 * max(abs(amount), abs(unit))
+        value0 = pos0 * price * mult
+        if amount == -value0 and abs(pos0) >= TOL:
+            self.fire("alloc_exact_close")
+            if pos1 != 0:
+                self.violation("c05_close", "allocate(-value) left position %r (pos before %r)" % (pos1, pos0), flags)
+            return r
+        c = cost(q)
+        flags["q_is_minus_pos"] = bool(q == -pos0 and abs(pos0) >= TOL)
+        flags["q_zero"] = bool(q == 0)
+        flags["comm"] = self.cfg["comm"]["kind"]
+        flags["amount_lt_unit"] = bool(abs(amount) < abs(unit))
+        flags["wrong_way"] = bool(q * amount < 0)
+        flags["fee_at_zero"] = bool(comm(0.0, price * mult) > 0)
+        flags["crosses_zero"] = bool(pos0 * pos1 < 0)
+        if integer and float(pos0).is_integer() and not float(q).is_integer():
+            self.violation("c05_integral", "integer positions but traded %r" % q, flags)
+        if c > amount + tol:
+            self.violation("c05_overspend", "allocate(%r) traded q=%r costing %r > amount (price=%r mult=%r spread=%r pos=%r comm=%s)" % (amount, q, c, price, mult, spread, pos0, self.cfg["comm"]), flags)
+        elif integer:
+            if float(q + 1).is_integer() and cost(q + 1) <= amount - tol:
+                self.violation("c05_underfill", "allocate(%r) traded q=%r (cost %r) although q+1 costs %r <= amount (price=%r mult=%r pos=%r comm=%s)" % (amount, q, c, cost(q + 1), price, mult, pos0, self.cfg["comm"]), flags)
+        else:
+            # (when even an infinitesimal trade costs more than the amount - fee at zero size - doing nothing is right)
+            if c < amount - tol and not (q == 0 and cost(math.copysign(1e-9, amount)) > amount):
+                self.violation("c05_underfill", "fractional allocate(%r) traded q=%r costing %r != amount (price=%r mult=%r pos=%r comm=%s)" % (amount, q, c, price, mult, pos0, self.cfg["comm"]), flags)
+        if abs((cap1 - cap0) + c) > 1e-9 * (abs(c) + abs(cap0) + 1):
+            self.violation("c05_cash", "parent cash moved by %r, cost of the trade is %r" % (cap1 - cap0, c), flags)
+        if self.comm_booked - booked0 != (1 if q != 0 else 0):
+            self.violation("c05_probe_booked", "%d commission evaluations booked for one allocate (q=%r)" % (self.comm_booked - booked0, q), flags)
+        return r
 
     def fire(self, k, n=1):
         self.fired[k] = self.fired.get(k, 0) + n
@@ -702,6 +787,16 @@ class TreeSim(taps.Sim):
         mult = cs["mult"]
         mode = o["mode"]
         if not (price == price and price > 0):
+            if not (o.get("ill") and "C05" in self.judge and (price != price or price == 0) and mode in ("frac", "units", "tiny")):
+                return False
+            # ill-formed on purpose: a trade at a missing / zero price must be refused with an error and no state change
+            amt = (o.get("units", 3) * 10.0) if mode != "frac" else (o["frac"] * self.mvalue(p) or 100.0)
+            self.fire("ill_alloc_bad_price")
+            try:
+                node.allocate(amt, child=cname)
+            except Exception as e:  # noqa
+                if "Cannot allocate capital" not in str(e):
+                    self.c10("unexpected_exception", "ill alloc: %s" % str(e)[:100], {})
             return False
         exists = cname in node.children
         if mode == "frac":
